@@ -209,7 +209,9 @@ impl Index<&AssetId> for RuntimeBalances {
     type Output = Word;
 
     fn index(&self, index: &AssetId) -> &Self::Output {
-        &self.state[index].value
+        // An asset without an entry has no free balance. The base asset may have none:
+        // it can be named by a change output without being among the inputs.
+        self.state.get(index).map(|balance| &balance.value).unwrap_or(&0)
     }
 }
 
